@@ -291,6 +291,7 @@ pub fn run(modelrun: &str) {
                         if b.is_empty() { vec![] } else { b.split(',').map(|x| order_of_str(x).unwrap()).collect() }
                     };
                     let price = lvl.price();
+                    let listed = std::cell::RefCell::new(t[5].to_string());
                     let r = guarded(&wh, 5000, || -> Result<PriceLevel, String> {
                         let snap = || pricelevel::PriceLevelSnapshot {
                             price,
@@ -313,6 +314,28 @@ pub fn run(modelrun: &str) {
                                 let j = serde_json::to_string(&d).map_err(|e| e.to_string())?;
                                 serde_json::from_str::<PriceLevel>(&j).map_err(|e| e.to_string())
                             }
+                            "pkg" | "pjson" => {
+                                // a checksummed package whose aggregate fields lie, with a matching checksum
+                                use sha2::{Digest, Sha256};
+                                let tmp = PriceLevel::new(price);
+                                for o in &orders {
+                                    tmp.add_order(*o);
+                                }
+                                let mut pkg = tmp.snapshot_package().map_err(|e| e.to_string())?;
+                                pkg.snapshot.visible_quantity = cv.parse().unwrap();
+                                pkg.snapshot.hidden_quantity = ch.parse().unwrap();
+                                pkg.snapshot.order_count = cc.parse().unwrap();
+                                // the package lists the orders by timestamp: that order is what gets restored
+                                *listed.borrow_mut() = list_str(&pkg.snapshot.orders, |o| str_of_order(o));
+                                let payload = serde_json::to_vec(&pkg.snapshot).map_err(|e| e.to_string())?;
+                                pkg.checksum = format!("{:x}", Sha256::digest(&payload));
+                                if via == "pkg" {
+                                    PriceLevel::from_snapshot_package(pkg).map_err(|e| e.to_string())
+                                } else {
+                                    let j = pkg.to_json().map_err(|e| e.to_string())?;
+                                    PriceLevel::from_snapshot_json(&j).map_err(|e| e.to_string())
+                                }
+                            }
                             "text" => {
                                 let os: Vec<String> = orders.iter().map(|o| o.to_string()).collect();
                                 let text = format!(
@@ -324,7 +347,7 @@ pub fn run(modelrun: &str) {
                             _ => Err(format!("bad via {via}")),
                         }
                     });
-                    let cmd = format!("EXT {} {cv} {ch} {cc} {}", via_family(via), t[5]);
+                    let cmd = format!("EXT {} {cv} {ch} {cc} {}", via_family(via), listed.borrow());
                     match r {
                         Ok(Ok(n)) => {
                             let s = format!("built=ok {}", state_str(&n));
